@@ -425,3 +425,33 @@ Proof.
       eapply Hi; eassumption.
     + subst r. eexists; split; reflexivity.
 Qed.
+
+(* the same, where the body is only known to compute [hb] on the diagonals below [stop] *)
+Lemma phase_refine_b {R} (body : Z -> list Z * Z * Z -> result (list Z * Z * Z + R))
+    (hb : Z -> (Z -> Z) -> Z -> Z -> hres) (ret : Z -> Z -> Z -> Z -> R) (off vlen stop : Z)
+    (Inv : Z -> (Z -> Z) -> Z -> Z -> Prop) :
+  (forall k v f s e, Inv k f s e -> k < stop -> repr off v f -> zlen v = vlen ->
+     exists r, body k (v, s, e) = Ok r /\
+       match hb k f s e with
+       | HCont f' s' e' => exists v', r = inl (v', s', e') /\ repr off v' f' /\ zlen v' = vlen
+       | HHit x y kk xo => r = inr (ret x y kk xo)
+       end) ->
+  (forall k f s e f' s' e', Inv k f s e -> k < stop -> hb k f s e = HCont f' s' e' -> Inv (k + 2) f' s' e') ->
+  forall n a v f s e, Inv a f s e -> a + 2 * Z.of_nat n <= stop + 1 -> repr off v f -> zlen v = vlen ->
+    exists r, for_loop (map (fun i => a + 2 * Z.of_nat i) (seq 0 n)) body (v, s, e) = Ok r /\
+      match hiter hb n a f s e with
+      | HCont f' s' e' => exists v', r = inl (v', s', e') /\ repr off v' f' /\ zlen v' = vlen
+      | HHit x y kk xo => r = inr (ret x y kk xo)
+      end.
+Proof.
+  intros Hb Hi. induction n as [|n IH]; intros a v f s e HI Hs Hr Hl.
+  - cbn. eexists; split; [reflexivity|]. now exists v.
+  - cbn [seq map for_loop hiter]. replace (a + 2 * Z.of_nat 0) with a by lia.
+    assert (Ha : a < stop) by lia.
+    destruct (Hb a v f s e HI Ha Hr Hl) as (r & Er & Hm). rewrite Er.
+    destruct (hb a f s e) as [f' s' e'|x y kk xo] eqn:Eh.
+    + destruct Hm as (v' & -> & Hr' & Hl').
+      rewrite map_seq_shift. apply IH; [|lia|assumption|assumption].
+      eapply Hi; eassumption.
+    + subst r. eexists; split; reflexivity.
+Qed.
